@@ -256,13 +256,21 @@ Definition cfg_build_new_lines (original_lines : list str) (defined : str) (deps
     The write happens BEFORE the diff and the change list are computed; in the comma-separated branch the diff
     has one changed line number, so `added_line_nums[i]` raises IndexError for a second dependency
     (difflib is an oracle: only the number of changed lines is modelled). *)
-Definition cfg_add_to_file (g : dry_guard) (dry : bool) (text : str) (defined : option str) (deps : list dep)
-  : wres * str :=
+(** The lines handed to build_new_lines (and to the diff): `f.readlines()`, in the repaired form with the last
+    line terminated (`if original_lines and not original_lines[-1].endswith("\n"): original_lines[-1] += "\n"`). *)
+Definition cfg_lines (lv : cfg_last_line) (text : str) : list str :=
+  match lv with
+  | LastLineAsIs => readlines text
+  | LastLineTerminated => match fix_last (readlines text) with Some ls => ls | None => readlines text end
+  end.
+
+Definition cfg_add_to_file (lv : cfg_last_line) (g : dry_guard) (dry : bool) (text : str) (defined : option str)
+           (deps : list dep) : wres * str :=
   match defined with
   | None => (WNone, text)
   | Some [] => (WNone, text)
   | Some df =>
-      let original_lines := readlines text in
+      let original_lines := cfg_lines lv text in
       match cfg_build_new_lines original_lines df deps with
       | BNone => (WNone, text)
       | BCrash => (WCrash, text)
@@ -277,11 +285,11 @@ Definition cfg_add_to_file (g : dry_guard) (dry : bool) (text : str) (defined : 
       end
   end.
 
-Definition cfg_write (v : name_cmp) (g : dry_guard) (dry : bool) (text : str) (defined : option str)
-           (declared : list str) (deps : list dep) : wres * str :=
+Definition cfg_write (v : name_cmp) (lv : cfg_last_line) (g : dry_guard) (dry : bool) (text : str)
+           (defined : option str) (declared : list str) (deps : list dep) : wres * str :=
   match add_deps v deps declared with
   | [] => (WNone, text)
-  | new => cfg_add_to_file g dry text defined new
+  | new => cfg_add_to_file lv g dry text defined new
   end.
 
 (* ------------------------------------------------------------------------------------------------ *)
